@@ -66,9 +66,15 @@ theorem lexStep_length (s : Text) (t : Option Tok) (rest : Text) (h : lexStep s 
     by_cases hc6 : c = ';'
     · rw [if_pos hc6] at h; exact easy _ h
     rw [if_neg hc6] at h
-    by_cases hc7 : c = '-'
+    by_cases hc7 : c = '('
     · rw [if_pos hc7] at h; exact easy _ h
     rw [if_neg hc7] at h
+    by_cases hc8 : c = ')'
+    · rw [if_pos hc8] at h; exact easy _ h
+    rw [if_neg hc8] at h
+    by_cases hc9 : c = '-'
+    · rw [if_pos hc9] at h; exact easy _ h
+    rw [if_neg hc9] at h
     by_cases hq : c = '"'
     · rw [if_pos hq] at h
       split at h
@@ -182,17 +188,20 @@ structure NotSpecial (c : Char) : Prop where
   rbrace : c ≠ '}'
   eq : c ≠ '='
   semi : c ≠ ';'
+  lparen : c ≠ '('
+  rparen : c ≠ ')'
   minus : c ≠ '-'
   quote : c ≠ '"'
 
 theorem notSpecial_of (c : Char) (p : Char → Bool) (hp : p c = true)
     (h : p ' ' = false ∧ p '\n' = false ∧ p '\t' = false ∧ p '\r' = false ∧ p '[' = false ∧ p ']' = false ∧
-      p '{' = false ∧ p '}' = false ∧ p '=' = false ∧ p ';' = false ∧ p '-' = false ∧ p '"' = false) :
+      p '{' = false ∧ p '}' = false ∧ p '=' = false ∧ p ';' = false ∧ p '(' = false ∧ p ')' = false ∧
+      p '-' = false ∧ p '"' = false) :
     NotSpecial c := by
-  obtain ⟨h1, h2, h3, h4, h5, h6, h7, h8, h9, h10, h11, h12⟩ := h
+  obtain ⟨h1, h2, h3, h4, h5, h6, h7, h8, h9, h10, h13, h14, h11, h12⟩ := h
   have ne : ∀ d : Char, p d = false → c ≠ d := by
     intro d hd hc; subst hc; rw [hp] at hd; cases hd
-  refine ⟨?_, ne _ h5, ne _ h6, ne _ h7, ne _ h8, ne _ h9, ne _ h10, ne _ h11, ne _ h12⟩
+  refine ⟨?_, ne _ h5, ne _ h6, ne _ h7, ne _ h8, ne _ h9, ne _ h10, ne _ h13, ne _ h14, ne _ h11, ne _ h12⟩
   cases hw : isWs c with
   | false => rfl
   | true =>
@@ -230,7 +239,7 @@ theorem lexStep_notSpecial (c : Char) (cs : Text) (h : NotSpecial c) :
       else none := by
   simp only [lexStep]
   rw [if_neg (by simp [h.ws]), if_neg h.lbrack, if_neg h.rbrack, if_neg h.lbrace, if_neg h.rbrace,
-    if_neg h.eq, if_neg h.semi, if_neg h.minus, if_neg h.quote]
+    if_neg h.eq, if_neg h.semi, if_neg h.lparen, if_neg h.rparen, if_neg h.minus, if_neg h.quote]
 
 /-! ### white space and punctuation -/
 
@@ -261,6 +270,10 @@ theorem lexData_rbrace (s : Text) : lexData ('}' :: s) = (lexData s).map (Tok.rb
 theorem lexData_eq (s : Text) : lexData ('=' :: s) = (lexData s).map (Tok.eq :: ·) :=
   lexData_punct _ _ s (by intro cs; simp [lexStep, isWs])
 theorem lexData_semi (s : Text) : lexData (';' :: s) = (lexData s).map (Tok.semi :: ·) :=
+  lexData_punct _ _ s (by intro cs; simp [lexStep, isWs])
+theorem lexData_lparen (s : Text) : lexData ('(' :: s) = (lexData s).map (Tok.lparen :: ·) :=
+  lexData_punct _ _ s (by intro cs; simp [lexStep, isWs])
+theorem lexData_rparen (s : Text) : lexData (')' :: s) = (lexData s).map (Tok.rparen :: ·) :=
   lexData_punct _ _ s (by intro cs; simp [lexStep, isWs])
 theorem lexData_minus (s : Text) : lexData ('-' :: s) = (lexData s).map (Tok.minus :: ·) :=
   lexData_punct _ _ s (by intro cs; simp [lexStep, isWs])
@@ -331,8 +344,9 @@ theorem lexData_str (s rest : Text) (hi : hasInterp s = false) (he : litEnd rest
 
 theorem litEnd_head_not_num (c : Char) (r : Text) (h : litEnd (c :: r) = true) : isNumChar c = false := by
   simp only [litEnd, Bool.or_eq_true, beq_iff_eq] at h
-  rcases h with ((h | h) | h) | h
+  rcases h with (((h | h) | h) | h) | h
   · rcases isWs_cases c h with rfl | rfl | rfl | rfl <;> decide
+  · subst h; decide
   · subst h; decide
   · subst h; decide
   · subst h; decide
@@ -496,8 +510,9 @@ theorem lexData_float (t rest : Text) (hf : isNixFloat t = true) (he : litEnd re
 
 theorem identEnd_head_not_rest (c : Char) (r : Text) (h : identEnd (c :: r) = true) : nixIdentRest c = false := by
   simp only [identEnd, Bool.or_eq_true, beq_iff_eq] at h
-  rcases h with (((h | h) | h) | h) | h
+  rcases h with ((((h | h) | h) | h) | h) | h
   · rcases isWs_cases c h with rfl | rfl | rfl | rfl <;> decide
+  · subst h; decide
   · subst h; decide
   · subst h; decide
   · subst h; decide
